@@ -3,6 +3,7 @@ use serde_json::{json, Value};
 use std::collections::HashMap;
 
 mod adj;
+mod search;
 
 fn main() {
     guard::init();
@@ -26,6 +27,9 @@ fn main() {
     let out: Value = match args[1].as_str() {
         "replay-adj" => adj::replay(&opts),
         "record-adj" => adj::record(&opts),
+        "replay-search" => search::replay(&opts),
+        "record-search" => search::record(&opts),
+        "compare-table" => search::compare_table(&opts),
         other => {
             eprintln!("unknown command {}", other);
             std::process::exit(2);
